@@ -92,7 +92,7 @@ fn aop_leaf(o: &AOp) -> String {
 fn build(rng: &mut Rng, must: usize) -> Option<Built> {
     let d = db();
     let el = eligible();
-    let mut gen = Gen::new(100);
+    let mut gen = Gen::with_id_policy(rng);
     gen.lit = LitStyle::Marker;
     gen.param_free = true;
     gen.max_variadic = 3;
